@@ -276,7 +276,7 @@ PLAN = {
               "'texttable' gives the default render of texttable.New(); 'texttable.N' and bare 'N' both equal texttable with SetDecorationNamed(N); an unknown or empty name gives a text table whose Render returns an error and \"\"; auto.New(style)+Render and auto.Render(t, style) agree. "
               "Styles are also resolved by re-styling an existing auto table of another style (auto.Wrap(auto.New(x), style)); decorations may be registered under names equal to sub-package names (the sub-package keeps winning, texttable.<name> selects the decoration). Non-trivial: the case registers a name and then resolves a style built from it, or uses a case variant, prefix or trailing section. Distinct: FNV-64 of the case."),
         level_text="Model-based (stateful) property testing over a growing global registry, with a differential oracle (style string versus the renderer selected directly). Exploration level.",
-        level_note="Names containing a dot or equal (case-insensitively) to a sub-package name are not top-level style names by the documentation and are not generated; nothing is asserted about case variants of decoration names or about sections after 'texttable.NAME'.",
+        level_note="Names whose first section equals (case-insensitively) a sub-package name are not generated; nothing is asserted about case variants of decoration names or about what follows a name that itself contains dots.",
         technique="model-based stateful property testing (rapid) with a differential oracle",
         quick=[rapid("prop", "TestProp", 750, shards=4)],
         thorough=[rapid("prop", "TestProp", 2000, shards=16)],
@@ -324,6 +324,21 @@ RULE_EXTRA6 = {
     "C19": "'texttable.'+sub-package name (any case) is a decoration name like any other: known only if registered.",
 }
 
+# additions of round 7 (DESIGN 9.16)
+RULE_EXTRA7 = {
+    "C01": "Items also of types whose text methods sit on the pointer receiver only, held by value; what Cell.Lines() hands out is overwritten by the caller before the cell is read again.",
+    "C04": "Property steps may also store the alignment key on the table itself, on a row or on a cell (no effect on any column); every line list the cells hand out is overwritten by the caller before rendering.",
+    "C07": "Header cells may be mutated and updated through Headers(); struct items whose encoding as {} depends on their value (all fields omitempty).",
+    "C09": "Styles include four decorations an application registered as they are (bars only, rules only, corners only, two-cell-wide glyphs).",
+    "C11": "Error values may be sentinels raised again and again by any source (a plain value, a typed nil pointer with a nil-safe Error method, a slice type that cannot be compared): occurrences are counted. Cell.Update() steps: refreshing a cell raises nothing.",
+    "C13": "Update steps (Cell.Update() fires nothing); Grow registrations (a table-owned add-time row callback that adds a cell to the row it is handed: the callbacks that follow are still handed the live cells); Lazy registrations (a render-time callback that registers one more callback on its own table). Every case runs under a watchdog: not back after 30 s and goroutines waiting for a lock below a library frame, unmoved in two stack dumps 3 s apart, is reported as a deadlock.",
+    "C14": "restyle acts may make their selection on a by-value copy of the kept text wrapper (the kept one is unaffected); the row list and every line list handed out are overwritten by the caller first.",
+    "C15": "Every fault is repeated through the package-level entry points (auto.RenderTo and the sub-package RenderTo functions).",
+    "C17": "Concurrent histories and bursts run under the deadlock watchdog described for C13.",
+    "C18": "After every reading the caller overwrites the list Cell.Lines() handed out and reads again.",
+    "C19": "Registered names may contain dots (selected as a whole, bare and after 'texttable.'); 'texttable.NAME.trailing' selects NAME.",
+}
+
 # properties deliberately not claimed, with the reason (empty: the technique applies to all 19)
 NOT_APPLICABLE = {}
 
@@ -332,3 +347,6 @@ for _pid, _extra in RULE_EXTRA.items():
 
 for _pid, _extra in RULE_EXTRA6.items():
     PLAN[_pid]["rule"] = PLAN[_pid]["rule"] + " Round 6: " + _extra
+
+for _pid, _extra in RULE_EXTRA7.items():
+    PLAN[_pid]["rule"] = PLAN[_pid]["rule"] + " Round 7: " + _extra
